@@ -81,6 +81,17 @@ func altAddress(pub []byte, version byte) string {
 	return string(serializer.Base58Encode(append(payload, h2[:4]...)))
 }
 
+// versionOnlyAddress: the version byte is changed, key and checksum bytes are kept as they were for
+// version 0 (so the checksum does NOT match the new version byte).
+func versionOnlyAddress(pub []byte, version byte) string {
+	payload := append([]byte{0}, pub...)
+	h1 := sha256.Sum256(payload)
+	h2 := sha256.Sum256(h1[:])
+	raw := append(payload, h2[:4]...)
+	raw[0] = version
+	return string(serializer.Base58Encode(raw))
+}
+
 // aliasSigner signs with w but presents another address text.
 type aliasSigner struct {
 	w    *wallet.Wallet
@@ -153,6 +164,8 @@ func mutantsOf(c *Ctx, o accountant.Vertex, other accountant.Vertex, stranger, s
 	add("vertex.signer.replaced", func(v *accountant.Vertex) { v.SignerPublicAddress = stranger.Address() })
 	add("vertex.signer.shortkey", func(v *accountant.Vertex) { v.SignerPublicAddress = badKeyAddress(31) })
 	add("vertex.signer.reencoded-version", func(v *accountant.Vertex) { v.SignerPublicAddress = altAddress(sealer.Public, 1+byte(r%255)) })
+	add("vertex.signer.version-byte-only", func(v *accountant.Vertex) { v.SignerPublicAddress = versionOnlyAddress(sealer.Public, 1+byte(r%255)) })
+	add("issuer.version-byte-only", func(v *accountant.Vertex) { v.Transaction.IssuerAddress = versionOnlyAddress(iss.Public, 1+byte(r%255)) })
 	add("issuer.reencoded-version", func(v *accountant.Vertex) { v.Transaction.IssuerAddress = altAddress(iss.Public, 1+byte(r%255)) })
 	add("issuer.shortkey", func(v *accountant.Vertex) { v.Transaction.IssuerAddress = badKeyAddress(33) })
 	add("vertex.trx.from-other", func(v *accountant.Vertex) { v.Transaction = other.Transaction })
